@@ -1,10 +1,351 @@
-import Nstd.Sync.Model
+import Nstd.Sync.LemmasMutex
+import Nstd.Sync.LemmasSem
+import Nstd.Sync.LemmasSignal
+import Nstd.Sync.LemmasMonitor
+import Nstd.Sync.LemmasRun
+/-
+  Property C11 — Mutex, Semaphore, Signal, Monitor and Thread keep their contracts under every interleaving.
+
+  Every theorem below quantifies over ALL reachable states of the transition systems of Model.lean, i.e. over
+  every schedule (a schedule is the list of `(thread, action)` choices that `Reach` is built from), with
+  unboundedly many threads, any number of spurious wake-ups / EINTR returns (the budgets are arbitrary
+  parameters) and clock ticks of any size at any moment.  The POSIX layer is the ASSUMED semantics of Posix.lean.
+-/
 namespace Nstd.Sync
 
-/-- the deadline handed to the timed POSIX waits is exactly `now + timeout` and well-formed -/
-theorem deadline_exact (ts : Timespec) (ms : Nat) :
-    (addTimeout ts ms).toNs = ts.toNs + ms * 1000000 ∧ (addTimeout ts ms).nsec < 1000000000 := by
-  simp only [addTimeout, Timespec.toNs]
+/-! ## Mutex -/
+
+/-- Mutex admits one thread at a time, re-entrantly for its owner: in every reachable state at most one thread
+    is inside (`held t` = successful lock/tryLock returns minus unlock returns of `t`), and a `lock()` of the
+    thread that is inside is enabled and nests. -/
+theorem mutex_exclusive_reentrant {s : Mutex.St} (h : Mutex.Reach s) :
+    (∀ t u, 0 < s.held t → 0 < s.held u → t = u) ∧
+    (∀ t, 0 < s.held t → s.pc t = .lock →
+      ∃ s', Mutex.step s t (.run 0) = some s' ∧ s'.held t = s.held t + 1 ∧ s'.pc t = .idle) := by
+  have hi := Mutex.inv_reach h
+  obtain ⟨hr, hn, ho⟩ := hi
+  constructor
+  · intro t u ht hu
+    cases hown : s.m.owner with
+    | none => have := (hn hown).2 t; omega
+    | some o =>
+      have h3 := (ho o hown).2.2
+      have e1 : t = o := Classical.byContradiction fun hne => by have := h3 t hne; omega
+      have e2 : u = o := Classical.byContradiction fun hne => by have := h3 u hne; omega
+      rw [e1, e2]
+  · intro t ht hpc
+    have hown : s.m.owner = some t := by
+      cases hown : s.m.owner with
+      | none => have := (hn hown).2 t; omega
+      | some o =>
+        have h3 := (ho o hown).2.2
+        have e1 : t = o := Classical.byContradiction fun hne => by have := h3 t hne; omega
+        rw [e1]
+    have hc : s.m.canLock t = true := (Mutex.canLock_iff s ⟨hr, hn, ho⟩ t).2 (Or.inr hown)
+    cases hs : Mutex.step s t (.run 0) with
+    | none => simp [Mutex.step, hpc, hc] at hs
+    | some s' =>
+      simp [Mutex.step, hpc, hc] at hs; subst hs
+      exact ⟨_, rfl, by simp, by simp⟩
+
+/-- tryLock never blocks (its step is always enabled and returns) and succeeds when the mutex is free or
+    owned by the caller; it fails exactly when another thread is inside. -/
+theorem trylock_nonblocking_succeeds_when_free {s : Mutex.St} (h : Mutex.Reach s) (t : Tid)
+    (hpc : s.pc t = .tryLock) :
+    ∃ s', Mutex.step s t (.run 0) = some s' ∧ s'.pc t = .idle ∧
+      ((∀ u, u ≠ t → s.held u = 0) → s'.ret t = some (.bool true) ∧ s'.held t = s.held t + 1) ∧
+      ((∃ u, u ≠ t ∧ 0 < s.held u) → s'.ret t = some (.bool false) ∧ s'.held = s.held) := by
+  have hi := Mutex.inv_reach h
+  have hcl := Mutex.canLock_iff s hi t
+  obtain ⟨hr, hn, ho⟩ := hi
+  by_cases hc : s.m.canLock t = true
+  · cases hs : Mutex.step s t (.run 0) with
+    | none => simp [Mutex.step, hpc, hc] at hs
+    | some s' => ?_
+    simp [Mutex.step, hpc, hc] at hs; subst hs
+    refine ⟨_, rfl, by simp, ?_, ?_⟩
+    · intro _; simp
+    · intro ⟨u, hut, hu⟩
+      exfalso
+      rcases hcl.1 hc with hown | hown
+      · have := (hn hown).2 u; omega
+      · have := (ho t hown).2.2 u hut; omega
+  · cases hs : Mutex.step s t (.run 0) with
+    | none => simp [Mutex.step, hpc, hc] at hs
+    | some s' => ?_
+    simp [Mutex.step, hpc, hc] at hs; subst hs
+    refine ⟨_, rfl, by simp, ?_, ?_⟩
+    · intro hfree
+      exfalso
+      apply hc
+      apply hcl.2
+      cases hown : s.m.owner with
+      | none => exact Or.inl rfl
+      | some o =>
+        right
+        have := ho o hown
+        have e : o = t := Classical.byContradiction fun hne => by have := hfree o hne; omega
+        rw [e]
+    · intro _; simp
+
+example : ∃ s, Mutex.Reach s ∧ s.held 1 = 2 ∧ s.pc 2 = .tryLock ∧ s.pc 1 = .lock := by
+  refine ⟨_, Mutex.reach_runActs [(1, .call .lock), (1, .run 0), (1, .call .tryLock), (1, .run 0), (2, .call .tryLock),
+    (1, .call .lock)] .init rfl, ?_, ?_, ?_⟩ <;> rfl
+
+/-! ## Semaphore -/
+
+/-- Semaphore conserves its count: successful waits never exceed the initial value plus the signals (indeed
+    `count + successes = initial + signals`), and while the count is positive no waiter stays blocked: the
+    pending `wait`, `wait(timeout)`, `tryWait` of any thread is enabled and returns true. -/
+theorem sem_conservation {c now e : Nat} {s : Sem.St} (h : Sem.Reach c now e s) :
+    s.count + s.succ = c + s.posts ∧ s.succ ≤ c + s.posts ∧
+    (0 < s.count → ∀ t, (s.pc t = .wait ∨ s.pc t = .tryWait ∨ ∃ d, s.pc t = .twait d) →
+      ∃ s', Sem.step s t (.run 0) = some s' ∧ s'.ret t = some (.bool true) ∧ s'.pc t = .idle ∧ s'.succ = s.succ + 1) := by
+  have hi := Sem.inv_reach h
+  have h0 := Sem.init0_reach h
+  have hc := hi.cons
+  rw [h0] at hc
+  refine ⟨hc, by omega, ?_⟩
+  intro hpos t hpc
+  cases hs : Sem.step s t (.run 0) with
+  | none => rcases hpc with hpc | hpc | ⟨d, hpc⟩ <;> simp [Sem.step, hpc, hpos] at hs
+  | some s' =>
+    rcases hpc with hpc | hpc | ⟨d, hpc⟩ <;> simp [Sem.step, hpc, hpos] at hs <;> subst hs <;>
+      exact ⟨_, rfl, by simp [Sem.done], by simp [Sem.done], by simp [Sem.done]⟩
+
+example : ∃ s, Sem.Reach 1 0 1 s ∧ 0 < s.count ∧ s.pc 1 = .wait ∧ s.succ = 1 := by
+  refine ⟨_, Sem.reach_runActs [(1, .call .wait), (1, .run 0), (2, .call .signal), (2, .run 0), (1, .call .wait)] .init rfl,
+    ?_, ?_, ?_⟩ <;> decide
+
+/-! ## Signal -/
+
+/-- A wait returns true only if the signal was set since its last reset: for every `true` return of wait() /
+    wait(timeout) in the history of any reachable state, the most recent write of the flag before that return
+    (or, if there is none, the constructor argument) is `true`, i.e. comes from set(). -/
+theorem signal_true_only_if_set_since_reset {set0 : Bool} {now spur : Nat} {s : Signal.St}
+    (h : Signal.Reach set0 now spur s) (pre post : List Signal.Ev) (t : Tid) (dl : Option Deadline) (at_ : Nat)
+    (hh : s.hist = pre ++ .waitRet t true dl at_ :: post) : Signal.lastWrite set0 post = true := by
+  have hg := (Signal.hinv_reach h).good
+  rw [hh] at hg
+  exact (Signal.good_suffix pre hg).1 rfl
+
+/-- No waiter stays blocked while the signal remains set: in every reachable state in which the flag is set and
+    some thread is blocked in the condition wait, a setter holds the mutex and is about to broadcast, and that
+    broadcast is enabled. -/
+theorem signal_no_waiter_stuck_while_set {set0 : Bool} {now spur : Nat} {s : Signal.St}
+    (h : Signal.Reach set0 now spur s) (hf : s.flag = true) (u : Tid) (dl : Option Deadline)
+    (hu : s.pc u = .wBlocked dl) :
+    ∃ v, s.pc v = .setBcast ∧ (Signal.step s v (.run 0)).isSome = true := by
+  obtain ⟨hne, hall⟩ := (Signal.inv_reach h).noStuck hf u dl hu
+  cases hm : s.m with
+  | none => exact absurd hm hne
+  | some v =>
+    have hv := hall v hm
+    exact ⟨v, hv, by simp [Signal.step, hv]⟩
+
+/-- set() releases all current waiters: the broadcast step of set() moves every thread of the wait set to the
+    re-acquisition of the mutex (none stays blocked), and a released waiter that gets the mutex while the flag is
+    still set leaves wait() with `true`. -/
+theorem signal_set_releases_all_current_waiters {set0 : Bool} {now spur : Nat} {s : Signal.St}
+    (_h : Signal.Reach set0 now spur s) (t : Tid) (ht : s.pc t = .setBcast) :
+    ∃ s', Signal.step s t (.run 0) = some s' ∧
+      (∀ u dl, s.pc u = .wBlocked dl → s'.pc u = .wRelock dl false) ∧
+      (∀ u dl, s'.pc u ≠ .wBlocked dl) ∧
+      (∀ s1 u dl, s1.pc u = .wRelock dl false → s1.flag = true → s1.m = none →
+        ∃ s2, Signal.step s1 u (.run 0) = some s2 ∧ s2.pc u = .wUnlock true dl) := by
+  cases hs : Signal.step s t (.run 0) with
+  | none => simp [Signal.step, ht] at hs
+  | some s' => ?_
+  simp [Signal.step, ht] at hs; subst hs
+  refine ⟨_, rfl, ?_, ?_, ?_⟩
+  · intro u dl hu
+    have hut : u ≠ t := by intro e; subst e; simp [ht] at hu
+    simp [Signal.goto, upd, hut, hu]
+  · intro u dl
+    by_cases hut : u = t
+    · subst hut; simp [Signal.goto, upd]
+    · simp only [Signal.goto, upd, hut, if_false]
+      cases hp : s.pc u <;> simp
+  · intro s1 u dl hu hf hm
+    cases hs : Signal.step s1 u (.run 0) with
+    | none => simp [Signal.step, hu, hm] at hs
+    | some s2 =>
+      simp [Signal.step, hu, hm, Signal.loopHead, hf] at hs; subst hs
+      exact ⟨_, rfl, by simp [Signal.goto, upd]⟩
+
+example : ∃ s, Signal.Reach false 0 1 s ∧ s.flag = true ∧ s.pc 1 = .wBlocked none ∧ s.pc 2 = .setBcast := by
+  refine ⟨_, Signal.reach_runActs [(1, .call .wait), (1, .run 0), (1, .run 0), (2, .call .set), (2, .run 0)] .init rfl, ?_, ?_, ?_⟩ <;> rfl
+
+example : ∃ s t dl at_ post, Signal.Reach false 0 1 s ∧ s.hist = [] ++ .waitRet t true dl at_ :: post := by
+  refine ⟨_, 1, none, 0, _, Signal.reach_runActs [(2, .call .set), (2, .run 0), (2, .run 0), (2, .run 0), (1, .call .wait), (1, .run 0), (1, .run 0)] .init rfl, rfl⟩
+
+/-! ## Monitor -/
+
+/-- Successful Monitor waits never outnumber set() calls (`succ` counts wait()/wait(timeout) returns with `true`,
+    `sets` the flag stores of set()). -/
+theorem monitor_waits_le_sets {now spur : Nat} {s : Monitor.St} (h : Monitor.Reach now spur s) :
+    s.succ ≤ s.sets := by
+  have := (Monitor.inv_reach h).counts
   omega
+
+/-- A set() issued after a waiter has taken the monitor releases a waiter.  `wBlocked dl true` says: the thread
+    is in the wait set and a set() has stored the flag since it joined.  As long as the flag has not been
+    consumed, a wake-up is then under way in every reachable state: a setter is about to unlock / signal, or a
+    waiter that left the wait set (not by time-out) is about to re-check the flag; the signal step wakes a member
+    of the (non-empty) wait set; and a woken waiter that gets the mutex while the flag is set consumes it and
+    returns true. -/
+theorem monitor_set_after_take_releases_a_waiter {now spur : Nat} {s : Monitor.St} (h : Monitor.Reach now spur s)
+    (hf : s.flag = true) (u : Tid) (dl : Option Deadline) (hu : s.pc u = .wBlocked dl true) :
+    (∃ v, s.pc v = .setUnlock ∨ s.pc v = .setSignal ∨ ∃ d, s.pc v = .wRelock d false) ∧
+    (∀ v, s.pc v = .setSignal → ∃ w s', Monitor.step s v (.run 0) = some s' ∧ Monitor.isBlocked (s.pc w) = true ∧
+        ∃ d, s'.pc w = .wRelock d false) ∧
+    (∀ v d, s.pc v = .wRelock d false → s.m = none →
+        ∃ s', Monitor.step s v (.run 0) = some s' ∧ s'.ret v = some (.bool true) ∧ s'.flag = false ∧ s'.succ = s.succ + 1) := by
+  have hi := Monitor.inv_reach h
+  refine ⟨?_, ?_, ?_⟩
+  · obtain ⟨v, hv⟩ := Monitor.noLost_reach h hf u dl hu
+    refine ⟨v, ?_⟩
+    cases hp : s.pc v <;> simp [hp, Monitor.pendingWake] at hv ⊢
+    rename_i d b
+    cases b <;> simp at hv ⊢
+  · intro v hv
+    have hmem : u ∈ s.waiters := (hi.wf u).2 (by simp [hu, Monitor.isBlocked])
+    cases hw : s.waiters with
+    | nil => simp [hw] at hmem
+    | cons w l =>
+      have hwb : Monitor.isBlocked (s.pc w) = true := (hi.wf w).1 (by simp [hw])
+      have hwv : w ≠ v := by intro e; subst e; simp [hv, Monitor.isBlocked] at hwb
+      cases hs : Monitor.step s v (.run 0) with
+      | none => simp [Monitor.step, hv, hw] at hs
+      | some s' =>
+        simp [Monitor.step, hv, hw] at hs; subst hs
+        refine ⟨w, _, rfl, hwb, ?_⟩
+        cases hp : s.pc w <;> simp [hp, Monitor.isBlocked] at hwb
+        simp [Monitor.done, upd, hwv, Monitor.wake]
+  · intro v d hv hm
+    cases hs : Monitor.step s v (.run 0) with
+    | none => simp [Monitor.step, hv, hm, hf] at hs
+    | some s' =>
+      simp [Monitor.step, hv, hm, hf] at hs; subst hs
+      exact ⟨_, rfl, by simp [Monitor.done], by simp [Monitor.done], by simp [Monitor.done]⟩
+
+example : ∃ s, Monitor.Reach 0 0 s ∧ s.flag = true ∧ s.pc 1 = .wBlocked none true ∧ s.pc 2 = .setUnlock := by
+  refine ⟨_, Monitor.reach_runActs [(1, .call .lock), (1, .run 0), (1, .call .wait), (1, .run 0), (2, .call .set), (2, .run 0)] .init rfl,
+    ?_, ?_, ?_⟩ <;> rfl
+
+/-! ## timed waits -/
+
+/-- The deadline handed to pthread_cond_timedwait / sem_timedwait by the three timed waits (Signal.cpp:80-82,
+    Monitor.cpp:90-92, Semaphore.cpp:63-65) is exactly `ts + timeout·10⁶ ns`, normalised. -/
+theorem deadline_exact (ts : Timespec) (ms : Nat) :
+    (addTimeout ts ms).toNs = ts.toNs + ms * 1000000 ∧ (addTimeout ts ms).nsec < 1000000000 :=
+  addTimeout_exact ts ms
+
+/-- Signal::wait(timeout) returns false only after its time-out has expired (and the untimed wait never returns
+    false): every `false` return in the history of a reachable state belongs to a timed wait, and the virtual
+    time of the return is at least the time of the call (`d.t0`) plus the requested milliseconds (`d.ms`). -/
+theorem timed_false_only_after_deadline_signal {set0 : Bool} {now spur : Nat} {s : Signal.St}
+    (h : Signal.Reach set0 now spur s) (pre post : List Signal.Ev) (t : Tid) (dl : Option Deadline) (at_ : Nat)
+    (hh : s.hist = pre ++ .waitRet t false dl at_ :: post) :
+    ∃ d, dl = some d ∧ d.t0 + d.ms * 1000000 ≤ at_ := by
+  have hg := (Signal.hinv_reach h).good
+  rw [hh] at hg
+  obtain ⟨hne, hall⟩ := (Signal.good_suffix pre hg).2 rfl
+  cases dl with
+  | none => exact absurd rfl hne
+  | some d => exact ⟨d, rfl, hall d rfl⟩
+
+/-- Monitor::wait(timeout) returns false only after its time-out has expired; the untimed wait never returns false. -/
+theorem timed_false_only_after_deadline_monitor {now spur : Nat} {s : Monitor.St} (h : Monitor.Reach now spur s)
+    (e : Monitor.FalseRet) (he : e ∈ s.flog) : ∃ d, e.dl = some d ∧ d.t0 + d.ms * 1000000 ≤ e.at_ := by
+  obtain ⟨hne, hall⟩ := Monitor.good_mem (Monitor.inv_reach h).good e he
+  cases hd : e.dl with
+  | none => exact absurd hd hne
+  | some d => exact ⟨d, rfl, hall d hd⟩
+
+/-- Semaphore::wait(timeout) returns false only after its time-out has expired (EINTR makes it retry with the same
+    absolute deadline; only ETIMEDOUT/EINVAL make it return false, and EINVAL cannot occur by `deadline_exact`). -/
+theorem timed_false_only_after_deadline_semaphore {c now e0 : Nat} {s : Sem.St} (h : Sem.Reach c now e0 s)
+    (e : Sem.FalseRet) (he : e ∈ s.flog) : e.d.t0 + e.d.ms * 1000000 ≤ e.at_ :=
+  Sem.good_mem (Sem.inv_reach h).good e he
+
+/-- the ghost fields of a deadline record are what they are said to be: call time and requested time-out -/
+theorem deadline_record (now ms : Nat) : (mkDeadline now ms).t0 = now ∧ (mkDeadline now ms).ms = ms ∧
+    (mkDeadline now ms).ts.toNs = now + ms * 1000000 ∧ (mkDeadline now ms).ts.valid = true := by
+  have := mkDeadline_ok now ms
+  exact ⟨this.2.2.1, this.2.2.2, this.1, this.2.1⟩
+
+example : ∃ s e, Sem.Reach 0 999999999 0 s ∧ e ∈ s.flog ∧ e.d.ms = 1500 := by
+  refine ⟨_, _, Sem.reach_runActs [(1, .call (.twait 1500)), (1, .tick 1500000000), (1, .run 2)] .init rfl, List.mem_cons_self, rfl⟩
+
+example : ∃ s e, Monitor.Reach 999999999 0 s ∧ e ∈ s.flog := by
+  refine ⟨_, _, Monitor.reach_runActs [(1, .call .lock), (1, .run 0), (1, .call (.twait 1)), (1, .run 0), (1, .tick 1000000), (1, .run 1),
+    (1, .run 0)] .init rfl, List.mem_cons_self⟩
+
+/-! ## Thread -/
+
+/-- Thread::join returns the thread function's result after it has finished: the join step is enabled only when
+    the target thread has finished, it then returns exactly the value the function returned, and a finished
+    thread's result never changes. -/
+theorem join_returns_result (s : Thr.St) (t j : Tid) (hpc : s.pc t = .join j) :
+    (∀ alt s', Thr.step s t (.api (.run alt)) = some s' →
+       ∃ v, s.status j = .finished v ∧ s'.ret t = some (.num v) ∧ s'.pc t = .idle ∧ s'.handle j = false) ∧
+    (∀ v, s.status j = .finished v → ∃ s', Thr.step s t (.api (.run 0)) = some s') ∧
+    (∀ v u a s', s.status j = .finished v → Thr.step s u a = some s' → s'.status j = .finished v) := by
+  refine ⟨?_, ?_, ?_⟩
+  · intro alt s' hs
+    simp only [Thr.step] at hs
+    split at hs
+    · simp at hs
+    · simp only [hpc] at hs
+      cases hst : s.status j <;> simp [hst] at hs
+      subst hs
+      exact ⟨_, rfl, by simp [Thr.done], by simp [Thr.done], by simp [Thr.done]⟩
+  · intro v hv
+    cases hs : Thr.step s t (.api (.run 0)) with
+    | none => simp [Thr.step, hpc, hv] at hs
+    | some s' => exact ⟨_, rfl⟩
+  · intro v u a s' hv hs
+    cases a with
+    | begin_ =>
+      simp only [Thr.step] at hs
+      split at hs
+      · rename_i hc; simp at hs; subst hs
+        have : j ≠ u := by intro e; subst e; simp [hv] at hc
+        simp [upd, this, hv]
+      · simp at hs
+    | exit v' =>
+      simp only [Thr.step] at hs
+      split at hs
+      · rename_i hc; simp at hs; subst hs
+        have : j ≠ u := by intro e; subst e; simp [hv] at hc
+        simp [upd, this, hv]
+      · simp at hs
+    | api a =>
+      cases a with
+      | tick q => simp [Thr.step] at hs; subst hs; exact hv
+      | call op =>
+        simp only [Thr.step] at hs
+        split at hs
+        · cases op <;> (simp only [] at hs; split at hs <;> simp [Thr.done] at hs <;> subst hs <;> exact hv)
+        · simp at hs
+      | run alt =>
+        simp only [Thr.step] at hs
+        split at hs
+        · simp at hs
+        · cases hp : s.pc u <;> simp only [hp] at hs
+          · simp at hs
+          · rename_i k
+            split at hs
+            · rename_i hc; simp [Thr.done] at hs; subst hs
+              have : j ≠ k := by intro e; subst e; simp [hv] at hc
+              simp [upd, this, hv]
+            · simp at hs
+          · rename_i k
+            cases hst : s.status k <;> simp [hst, Thr.done] at hs
+            subst hs; exact hv
+
+example : ∃ s : Thr.St, s.pc 0 = .join 1 ∧ s.status 1 = .finished 7 :=
+  ⟨{ Thr.init with pc := upd Thr.init.pc 0 (.join 1), status := upd Thr.init.status 1 (.finished 7) }, rfl, rfl⟩
 
 end Nstd.Sync
